@@ -214,6 +214,14 @@ class Ctx:
 
     # ---------------------------------------------------------------- finish
     def finish(self, level, coverage, trusted_base, checker_cmd):
+        if self.replay and os.path.exists(self.replay):
+            # replay: re-run the check and keep only the violation recorded in the replay file
+            try:
+                want = json.load(open(self.replay)).get("signature")
+            except Exception:
+                want = None
+            if want is not None:
+                self.violations = [v for v in self.violations if v[0] == want]
         lines = []
         for h in self.known_hits:
             lines.append(f"KNOWN-FINDING: property={self.pid} {h['what']} (hit {h['count']}x)")
